@@ -45,9 +45,10 @@ fn info_of(problem: &ProblemData) -> NameInfo {
         for p in f.formula.predicates() {
             n.predicates.insert((p.symbol, p.arity));
         }
-        for s in f.formula.symbols() {
-            n.symbols.insert(s);
-        }
+        // symbols by the checker's own traversal (anthem's `symbols()` feeds the very declarations under test)
+        let mut sig = crate::ir::Signature::default();
+        crate::ir::lower(&f.formula).signature(&mut sig);
+        n.symbols.extend(sig.syms);
         for c in f.formula.function_constants() {
             let suffix = match c.sort {
                 fol::Sort::General => "g",
@@ -153,6 +154,8 @@ pub fn task_strategy(known_shapes: bool) -> BoxedStrategy<TaskCase> {
 }
 
 pub struct Built {
+    /// symbolic constants written in the task's source files (placeholders excluded)
+    pub source_symbols: BTreeSet<String>,
     pub problems: Vec<ProblemData>,
     pub description: String,
     pub strong: bool,
@@ -167,6 +170,7 @@ pub fn build(case: &TaskCase, known_shapes: bool) -> Result<Built, Outcome> {
             let flags = gt::flags(&mut c);
             let problems = ops::strong_problems(left, right, &flags, *mu);
             Ok(Built {
+                source_symbols: gt::program_symbols(left).into_iter().chain(gt::program_symbols(right)).collect(),
                 problems,
                 description: format!(
                     "strong equivalence\n  left: {}\n  right: {}\n  flags: {} mu={mu}",
@@ -195,6 +199,7 @@ pub fn build(case: &TaskCase, known_shapes: bool) -> Result<Built, Outcome> {
             let flags = gt::flags(&mut c);
             match ops::external_problems(&task, &ops::empty_outline(), &flags, false) {
                 Ok((problems, _)) => Ok(Built {
+                    source_symbols: gt::external_source_symbols(&task),
                     problems,
                     description: format!("{}\n  flags: {}", describe_external(&task), flags.describe()),
                     strong: false,
@@ -359,30 +364,27 @@ impl Check for C12 {
         let mut key = String::new();
         let mut labels = vec![];
         for p in &built.problems {
-            let checked = match tff::check(&p.text) {
-                Ok(c) => c,
+            // syntax only at first: the declarations are compared with the formulas' symbols below,
+            // and an undeclared constant is this property's business (the chain has to cover it)
+            let parsed = match tff::parse(&p.text) {
+                Ok(es) => es,
                 Err(_) => return Outcome::skip("problem not well-formed (reported by C09)"),
             };
             // source symbols of the problem: the syntax trees of the hook carry the (renamed) symbols
             let mut tree_symbols: BTreeSet<String> = BTreeSet::new();
             let mut zero_ary: BTreeSet<String> = BTreeSet::new();
             for f in &p.formulas {
-                tree_symbols.extend(f.formula.symbols());
+                // by the checker's own traversal of the tree, not anthem's `symbols()`
+                let mut sig = crate::ir::Signature::default();
+                crate::ir::lower(&f.formula).signature(&mut sig);
+                tree_symbols.extend(sig.syms);
                 for q in f.formula.predicates() {
                     if q.arity == 0 {
                         zero_ary.insert(q.symbol);
                     }
                 }
             }
-            // how a declared symbolic constant is read: `x__s` stands for `x` if x is a 0-ary predicate
-            let source_of = |c: &str| -> String {
-                match c.strip_suffix("__s") {
-                    Some(base) if zero_ary.contains(base) => base.to_string(),
-                    _ => c.to_string(),
-                }
-            };
-            let declared: Vec<String> = checked
-                .entries
+            let declared: Vec<String> = parsed
                 .iter()
                 .filter_map(|e| match e {
                     Entry::TypeDecl { name, symbol, .. } if name.starts_with("type_symbol_") => Some(symbol.clone()),
@@ -396,14 +398,10 @@ impl Check for C12 {
                     format!("C12: declared symbolic constants {declared_set:?} differ from the symbols of the formulas {tree_symbols:?}\n{}", built.description),
                 );
             }
-            // injectivity of the reading
-            let sources: BTreeSet<String> = declared.iter().map(|c| source_of(c)).collect();
-            if sources.len() != declared.len() {
-                return Outcome::fail(
-                    "renaming-not-injective",
-                    format!("C12: two declared symbolic constants stand for the same source symbol: {declared:?}\n{}", built.description),
-                );
-            }
+            let checked = match tff::check(&p.text) {
+                Ok(c) => c,
+                Err(_) => return Outcome::skip("problem not well-formed (reported by C09)"),
+            };
             // the chain
             let mut links: Vec<(String, String)> = vec![];
             for e in &checked.entries {
@@ -437,6 +435,66 @@ impl Check for C12 {
                         "symbol-order-undeclared",
                         format!("C12: ordering axiom over undeclared constants {a}, {b}\n{}", built.description),
                     );
+                }
+            }
+            // how a declared symbolic constant is read, decided from the task's source files and not
+            // by inverting anthem's renaming: the constant `c` can stand for the source symbol `c`
+            // (unless `c` is a 0-ary predicate of this problem) or, if it is written `b__s`, for the
+            // source symbol `b`. Any injective reading under which all ordering axioms are true is
+            // accepted; the first candidate of each constant is used for the report otherwise.
+            let candidates: Vec<Vec<String>> = declared
+                .iter()
+                .map(|c| {
+                    let mut v = vec![];
+                    if let Some(b) = c.strip_suffix("__s") {
+                        if built.source_symbols.contains(b) {
+                            v.push(b.to_string());
+                        }
+                    }
+                    if built.source_symbols.contains(c) && !zero_ary.contains(c) {
+                        v.push(c.clone());
+                    }
+                    v
+                })
+                .collect();
+            if let Some(i) = candidates.iter().position(|v| v.is_empty()) {
+                return Outcome::fail(
+                    "declared-constant-without-source",
+                    format!("C12: the declared symbolic constant {} is not the (renamed) name of a symbolic constant of the input files {:?}\n{}", declared[i], built.source_symbols, built.description),
+                );
+            }
+            let mut reading: Option<BTreeMap<String, String>> = None;
+            let mut injective_exists = false;
+            let total: usize = candidates.iter().map(|v| v.len()).product();
+            for mut code in 0..total.min(4096) {
+                let mut m: BTreeMap<String, String> = BTreeMap::new();
+                for (c, v) in declared.iter().zip(&candidates) {
+                    m.insert(c.clone(), v[code % v.len()].clone());
+                    code /= v.len();
+                }
+                let distinct: BTreeSet<&String> = m.values().collect();
+                if distinct.len() != declared.len() {
+                    continue;
+                }
+                injective_exists = true;
+                if links.iter().all(|(a, b)| Val::Sym(m[a].clone()) < Val::Sym(m[b].clone())) {
+                    reading = Some(m);
+                    break;
+                }
+            }
+            if !injective_exists {
+                return Outcome::fail(
+                    "renaming-not-injective",
+                    format!("C12: the declared symbolic constants {declared:?} cannot stand for distinct symbolic constants of the input files {:?}\n{}", built.source_symbols, built.description),
+                );
+            }
+            let fallback: BTreeMap<String, String> = declared.iter().zip(&candidates).map(|(c, v)| (c.clone(), v[0].clone())).collect();
+            let failed_reading = reading.is_none();
+            let reading = reading.unwrap_or(fallback);
+            let source_of = |c: &str| -> String { reading[c].clone() };
+            for (a, b) in &links {
+                if !failed_reading {
+                    break;
                 }
                 let (sa, sb) = (Val::Sym(source_of(a)), Val::Sym(source_of(b)));
                 if !(sa < sb) {
